@@ -284,6 +284,10 @@ func runC07(c *Ctx) {
 		case 0x0800:
 			need("ip4 version/ihl", 14, 0x45)
 			need("ip4 protocol", 23, 1, 17)
+			// the datagram is whole: more-fragments clear and fragment offset 0 (DF may be set), written by this send path,
+			// not inherited from the pooled buffer's previous frame
+			need("ip4 flags/fragment hi", 20, 0x00, 0x40)
+			need("ip4 fragment lo", 21, 0x00)
 			lenEq("ip4 total length", 16, sv.Len.AddC(-14))
 			if p, ok := cst(23); ok && p == 17 {
 				lenEq("udp length", 38, sv.Len.AddC(-34))
